@@ -80,10 +80,36 @@ class C01(CheckBase):
         return 600 if tier == 'quick' else 5400
 
     def gen_case(self, rng, tier, index):
-        image = dfswork.gen_image(rng, kind=rng.weighted([(6, 'single'), (3, 'interleaved')]))
+        image = dfswork.gen_image(rng, kind=rng.weighted([(6, 'single'), (3, 'interleaved'), (2, 'two-sided')]))
         si = rng.below(len(image['surfaces']))
         s = dd.Surface.from_json(image['surfaces'][si])
         vi = rng.below(len(s.volumes))
+        # arbitrary body bytes: besides the tagged filler, give some files a body with a definite shape
+        # (text with CRs, runs of CR, high-bit bytes, NULs, a trailing CR or none)
+        nover = 0
+        for v in image['surfaces'][si]['volumes'][vi:vi + 1]:
+            for f in v['files']:
+                if f['length'] and rng.chance(0.25) and nover < 6:
+                    nover += 1
+                    shape = rng.choice(['text', 'crs', 'high', 'nul', 'nocr', 'ff'])
+                    n = min(f['length'], 256 * 3)
+                    if shape == 'text':
+                        body = (b'10 PRINT "HELLO"\r20 GOTO 10\r' * 40)[:n]
+                    elif shape == 'crs':
+                        body = b'\r' * n
+                    elif shape == 'high':
+                        body = bytes((0x80 + i) & 0xFF for i in range(n))
+                    elif shape == 'nul':
+                        body = bytes(n)
+                    elif shape == 'nocr':
+                        body = (b'no line terminator at all ' * 40)[:n]
+                    else:
+                        body = b'\xff' * n
+                    base = (v['origin'] + f['start']) * 256
+                    for k in range(0, n, 256):
+                        lba = (base + k) // 256
+                        old_sec = image['surfaces'][si]['overrides'].get(str(lba))
+                        image['surfaces'][si]['overrides'][str(lba)] = body[k:k + 256]
         fault = rng.weighted([(8, None), (2, 'rchunk'), (2, 'wshort'), (3, 'rfail'), (3, 'truncate')])
         return {'image': image, 'surface': si, 'volume': vi, 'fault': fault, 'seed': rng.below(1 << 30),
                 'maxfiles': 10 if tier == 'quick' else 40, 'extract': rng.chance(0.5), 'fpos': rng.below(1000),
